@@ -9,6 +9,13 @@ PROPS["C08"] = dict(
     theorems=[
         "Zrnt.Proofs.C08.lookahead_stable",
         "Zrnt.Proofs.C08.shuffling_stable",
+        "Zrnt.Proofs.C08.rotate_eq_ctxOf",
+        "Zrnt.Proofs.C08.afterUpgrade_eq_ctxOf",
+        "Zrnt.Proofs.C08.block_eq_ctxOf",
+        "Zrnt.Proofs.C08.afterDeposit_eq_ctxOf",
+        "Zrnt.Proofs.C08.chain_ctx_invariant",
+        "Zrnt.Proofs.C08.reload_equiv",
+        "Zrnt.Proofs.C08.ctx_reads_in_range_partial",
     ],
     modes=[dict(name="c08", stateful=True, max_shrinks=3)],
     custom=short_samples("c08"),
